@@ -864,3 +864,105 @@ Proof.
   destruct (fx_merge_distinct repaired && negb (bool_decide (NoDup vs))); auto.
   unfold new_uuid. simpl. discriminate.
 Qed.
+
+(* ------------------------------------------------------------------ new repo *)
+
+Lemma inv_repo_of_none s u : RepoInv s -> st_repo_of s !! u = None -> st_u2v s !! u = None.
+Proof.
+  intros I H. destruct (st_u2v s !! u) as [v|] eqn:E; auto.
+  destruct (inv_u2v_node s u v I E) as (i & _ & _ & _ & _ & _ & Hi & _). congruence.
+Qed.
+
+Lemma wf_single u v pass : valid_uuid u = true ->
+  repo_wf (mkRepo u v {[ v := mkNode u [] [] "" false ]} [] pass).
+Proof.
+  intros Hv. constructor; simpl.
+  - exists (mkNode u [] [] "" false). rewrite lookup_singleton. auto.
+  - intros w n H _. apply lookup_singleton_Some in H as [<- _]. reflexivity.
+  - intros w n p H Hp. apply lookup_singleton_Some in H as [_ <-]. inversion Hp.
+  - intros w n c H Hc. apply lookup_singleton_Some in H as [_ <-]. inversion Hc.
+  - intros w n H. apply lookup_singleton_Some in H as [_ <-]. simpl. split; apply NoDup_nil_2.
+  - intros w n H Hb. apply lookup_singleton_Some in H as [_ <-]. simpl in Hb. contradiction.
+  - intros w n c1 c2 n1 n2 H Hc. apply lookup_singleton_Some in H as [_ <-]. inversion Hc.
+  - intros w n H. apply lookup_singleton_Some in H as [_ <-]. simpl. discriminate.
+  - now apply valid_uuid_len.
+Qed.
+
+Lemma inv_new_repo s assign pass fresh :
+  RepoInv s -> (assign = None -> fresh_ok s fresh) ->
+  RepoInv (fst (do_new_repo repaired s assign pass fresh)).
+Proof.
+  intros I Hfresh. unfold do_new_repo.
+  match goal with |- context [if ?b then _ else _] => destruct b eqn:Eref end; [exact I|].
+  set (u := match assign with Some a => a | None => fresh end).
+  assert (Hu : valid_uuid u = true /\ st_u2v s !! u = None).
+  { unfold u. destruct assign as [a|].
+    - simpl in Eref. apply orb_false_iff in Eref as [E1 E2]. apply negb_false_iff in E1.
+      apply bool_decide_eq_false in E2. split; auto. apply inv_repo_of_none; auto.
+      destruct (st_repo_of s !! a); auto. exfalso. apply E2. eauto.
+    - apply (Hfresh eq_refl). }
+  destruct Hu as [Hval Hcu]. pose proof (valid_uuid_nonempty u Hval) as Hne.
+  unfold new_uuid. simpl.
+  set (v := st_next_v s). set (id := st_next_r s).
+  set (r := mkRepo u v {[ v := mkNode u [] [] "" false ]} [] pass).
+  assert (Hv : st_v2u s !! v = None).
+  { destruct (st_v2u s !! v) as [x|] eqn:E; auto. apply (inv_next_v s I) in E. unfold v in E. lia. }
+  assert (Hid : st_repos s !! id = None).
+  { destruct (st_repos s !! id) as [x|] eqn:E; auto. apply (inv_next_r s I) in E. unfold id in E. lia. }
+  assert (Hidr : st_roots s !! id = None).
+  { destruct (st_roots s !! id) as [x|] eqn:E; auto. destruct (inv_live s I id x E) as (r0 & Hr0 & _). congruence. }
+  assert (Hold : forall j Rj rj w n, st_roots s !! j = Some Rj -> st_repos s !! j = Some rj ->
+            r_nodes rj !! w = Some n -> j <> id /\ w <> v /\ n_uuid n <> u).
+  { intros j Rj rj w n H1 H2 H3. destruct (inv_nodes s I j Rj rj w n H1 H2 H3) as [Hw _].
+    split; [intros ->; congruence|]. split; [intros ->; congruence|].
+    intros Eu. apply (inv_bij s I) in Hw. congruence. }
+  constructor; simpl.
+  - intros j Rj H. apply lookup_insert_Some in H as [[<- <-]|[Nj H]].
+    + exists r. rewrite lookup_insert. split; auto. split; auto. now apply wf_single.
+    + rewrite lookup_insert_ne by auto. apply (inv_live s I j Rj H).
+  - intros x w. rewrite !lookup_insert_Some. split.
+    + intros [[<- <-]|[Ne Hx]]; [auto|]. right. pose proof (proj1 (inv_bij s I x w) Hx) as Hw.
+      split; auto. intros <-. congruence.
+    + intros [[<- <-]|[Ne Hw]]; [auto|]. right. pose proof (proj2 (inv_bij s I x w) Hw) as Hx.
+      split; auto. intros <-. congruence.
+  - intros j Rj rj w n HRj Hrj Hn.
+    apply lookup_insert_Some in HRj as [[<- <-]|[Nj HRj]].
+    + rewrite lookup_insert in Hrj. injection Hrj as <-. simpl in Hn.
+      apply lookup_singleton_Some in Hn as [<- <-]. simpl. now rewrite !lookup_insert.
+    + rewrite lookup_insert_ne in Hrj by auto.
+      destruct (Hold j Rj rj w n HRj Hrj Hn) as (_ & Nw & Nu).
+      rewrite !lookup_insert_ne by auto. apply (inv_nodes s I j Rj rj w n HRj Hrj Hn).
+  - intros x j Hj. apply lookup_insert_Some in Hj as [[<- <-]|[Nx Hj]].
+    + exists u, r, v, (mkNode u [] [] "" false). rewrite !lookup_insert. simpl. now rewrite lookup_singleton.
+    + destruct (inv_repo_of s I x j Hj) as (Rj & rj & w & n & HRj & Hrj & Hx & Hn).
+      destruct (Hold j Rj rj w n HRj Hrj Hn) as (Nj & Nw & Nu).
+      exists Rj, rj, w, n. rewrite !lookup_insert_ne by auto. auto.
+  - intros w x H. apply lookup_insert_Some in H as [[<- <-]|[Nw H]].
+    + rewrite lookup_insert. eauto.
+    + destruct (inv_mapped s I w x H) as [j Hj]. destruct (decide (x = u)) as [->|Nx].
+      * rewrite lookup_insert. eauto.
+      * rewrite lookup_insert_ne by auto. eauto.
+  - intros w x H. apply lookup_insert_Some in H as [[<- <-]|[Nw H]]; [fold v; lia|].
+    apply (inv_next_v s I) in H. fold v in H |- *. lia.
+  - intros j rj H. apply lookup_insert_Some in H as [[<- <-]|[Nj H]]; [fold id; lia|].
+    apply (inv_next_r s I) in H. fold id in H |- *. lia.
+  - rewrite lookup_insert_ne by auto. apply (inv_nil s I).
+  - intros j Rj rj w n HRj Hrj Hn Hb L.
+    apply lookup_insert_Some in HRj as [[<- <-]|[Nj HRj]].
+    + rewrite lookup_insert in Hrj. injection Hrj as <-. simpl in Hn.
+      apply lookup_singleton_Some in Hn as [_ <-]. simpl in Hb. contradiction.
+    + rewrite lookup_insert_ne in Hrj by auto.
+      destruct (inv_root_eq s j Rj rj I HRj Hrj) as [ERj Wj].
+      rewrite lookup_insert_ne; [apply (inv_heads s I j Rj rj w n HRj Hrj Hn Hb L)|].
+      intros Ek. assert (Hm : "" <> "master") by discriminate.
+      destruct (head_key_inj _ _ _ _ (valid_uuid_len u Hval) (wf_root_len rj Wj) Hm (wf_no_master rj Wj w n Hn) Ek) as [Eu _].
+      destruct (wf_root rj Wj) as (n0 & Hn0 & Un0 & _).
+      destruct (Hold j Rj rj _ n0 HRj Hrj Hn0) as (_ & _ & Nu). congruence.
+Qed.
+
+Lemma new_repo_frame fx s assign pass fresh :
+  is_done (snd (do_new_repo fx s assign pass fresh)) = false -> fst (do_new_repo fx s assign pass fresh) = s.
+Proof.
+  unfold do_new_repo. match goal with |- context [if ?b then _ else _] => destruct b end; auto.
+  unfold new_uuid. simpl. discriminate.
+Qed.
